@@ -181,6 +181,87 @@ theorem spec_destroyMap_id (env : Env) (x x' : JVal) (r : Res)
   cases x <;> simp [Containers.applyNode, Containers.withUnit, Containers.destroyMap] at h
   exact h.1.symm
 
+/-! ## the side condition stated on the spec run only -/
+
+/-- on the abstract state: a `RemoveMember` is only applied to an object with pairwise distinct keys -/
+def SafeOpAbs (st : State) : Op → Prop
+  | .node d p (.remove _) =>
+    match st.docs[d]? with
+    | some doc =>
+      match Containers.get doc p with
+      | some (.obj kvs) => (kvs.map (·.1)).Nodup
+      | _ => True
+    | none => True
+  | _ => True
+
+def specNext (env : Env) (st : State) (op : Op) : State :=
+  match Containers.step env st op with
+  | some r => r.1
+  | none => st
+
+def SafeRunAbs (env : Env) : State → List Op → Prop
+  | _, [] => True
+  | st, op :: ops => SafeOpAbs st op ∧ SafeRunAbs env (specNext env st op) ops
+
+theorem SafeOp_of_abs {s : Session} {op : Op} (h : SafeOpAbs s.abs op) : SafeOp s op := by
+  cases op with
+  | node d p nop =>
+    cases nop with
+    | remove k =>
+      simp only [SafeOp, SafeOpAbs, abs_docs_get] at h ⊢
+      cases hd : s.docs[d]? with
+      | none => trivial
+      | some doc =>
+        simp only [hd, Option.map_some, ← abs_get] at h ⊢
+        cases hx : doc.get p with
+        | none => trivial
+        | some x =>
+          simp only [hx, Option.map_some] at h ⊢
+          cases x with
+          | obj mt ms =>
+            simp only [abs_obj, List.map_map] at h
+            right
+            have : (ms.map mkey) = List.map ((fun x => x.1) ∘ absMem) ms := by
+              apply List.map_congr_left; intro m _; rfl
+            rw [this]; exact h
+          | _ => trivial
+    | _ => trivial
+  | _ => trivial
+
+theorem SafeRun_of_abs (env : Env) : ∀ (ops : List Op) (s : Session), DomInv s → MapOrdered s →
+    SafeRunAbs env s.abs ops → SafeRun env s ops
+  | [], _, _, _, _ => trivial
+  | op :: ops, s, hi, ha, h => by
+    simp only [SafeRunAbs] at h
+    have hsafe := SafeOp_of_abs h.1
+    refine ⟨hsafe, ?_⟩
+    have href := step_refines env hi op (fun _ => ha)
+    simp only [next, specNext] at h ⊢
+    cases hst : step env s op with
+    | none =>
+      rw [hst] at href
+      simp only [Option.map_none] at href
+      rw [← href] at h
+      exact SafeRun_of_abs env ops s hi ha h.2
+    | some r =>
+      obtain ⟨s', o⟩ := r
+      rw [hst] at href
+      simp only [Option.map_some, proj] at href
+      rw [← href] at h
+      exact SafeRun_of_abs env ops s' (step_DomInv env hi hst) (step_MapOrdered env hi ha hsafe hst) h.2
+
+theorem init_DomInv : DomInv Session.init := by
+  intro d hd
+  simp only [Session.init, List.mem_cons, List.not_mem_nil, or_false, or_self] at hd
+  subst hd
+  simp
+
+theorem init_MapOrdered : MapOrdered Session.init := by
+  intro d hd
+  simp only [Session.init, List.mem_cons, List.not_mem_nil, or_false, or_self] at hd
+  subst hd
+  simp
+
 /-! ## what map-based lookups guarantee without any assumption on the map order -/
 
 theorem findMemberSV_weak {mt : Option ObjMeta} {ms : List Member} (hi : LocalInv (.obj mt ms)) (k : Key) :
